@@ -470,6 +470,8 @@ func runC17(c *Ctx, r *Report) {
 	importRules(c, r, "C18", []string{"R-C18.14"}, "R-C17.8") // …and keep the links the block carries unless they opened sealed ones
 	r.Doc("R-C17.10", "the fetch worker keeps what it fetched (adopted from C09: an entry dropped on load for its content makes a returned head hash load to a log without its history)")
 	importRules(c, r, "C09", []string{"R-C09.15"}, "R-C17.10")
+	r.Doc("R-C17.11", "a refused append leaves the entry index, the predecessor index and the heads untouched (adopted from C02: a phantom successor makes the next merge drop the log's own head, and the manifest published afterwards no longer reaches appends that had been acknowledged)")
+	importRules(c, r, "C02", []string{"R-C02.7"}, "R-C17.11")
 	r.Doc("R-C17.9", "the codec objects shared by logs that append through one link-sealing codec are concurrency-safe (adopted from C18: a stateful marshaller shared by overlapping appends writes blocks whose sealed links are truncated or belong to another entry, and the returned hash no longer loads)")
 	importRules(c, r, "C18", []string{"R-C18.7"}, "R-C17.9", 0)
 	errDiscipline(c, r, "R-C17.6", func(fn *Fn) bool {
